@@ -130,7 +130,7 @@ def load_known():
 def run_modelrun(lines):
     rc, out = sh([MODELRUN], stdin="\n".join(lines) + "\n", timeout=3000)
     if rc != 0:
-        raise RuntimeError("modelrun failed rc=%s: %s" % (rc, out[-2000:]))
+        raise RuntimeError("modelrun failed rc=%s: %s" % (rc, out[-300:]))
     res = out.split()
     if len(res) != len(lines):
         raise RuntimeError("modelrun answered %d lines for %d cases" % (len(res), len(lines)))
@@ -338,6 +338,8 @@ def check_proofs(ctx, extra_targets=None):
     Print Assumptions output of every theorem."""
     prop = ctx.prop
     targets = ["Props/%s.vo" % prop] + (extra_targets or [])
+    # the correspondence evaluators are extracted from Corr/*.vo: keep them in step with the models
+    targets += sorted("Corr/" + f[:-2] + ".vo" for f in os.listdir(os.path.join(COQ, "Corr")) if f.endswith(".v"))
     rc, out = coq_make(targets)
     names = prop_theorems(prop)
     if rc != 0:
@@ -358,7 +360,68 @@ def check_proofs(ctx, extra_targets=None):
             ass.append(" ".join(b.split()))
     for i, n in enumerate(names):
         ctx.obligations.append({"name": n, "status": "Qed", "assumptions": ass[i] if i < len(ass) else "?"})
+    if ctx.tier == "thorough":
+        ok3, out3 = thorough_proof_audit(ctx)
+        if not ok3:
+            return False, out3, None
     return True, out2, None
+
+
+FORBIDDEN = (r"^\s*(?:#\[[^\]]*\]\s*)?(?:Local\s+|Global\s+|Polymorphic\s+)?(Axiom|Axioms|Parameter|Parameters|Conjecture|Conjectures|Hypothesis|Hypotheses|Variable|Variables)\b"
+             r"|\b(Admitted|admit|give_up)\b|Unset\s+Guard|Unset\s+Positivity|Unset\s+Universe|bypass_check|type-in-type|impredicative-set|native_compute|Admit\s+Obligations")
+
+
+def strip_comments(txt):
+    out, depth, i = [], 0, 0
+    while i < len(txt):
+        if txt.startswith("(*", i):
+            depth += 1; i += 2
+        elif txt.startswith("*)", i) and depth:
+            depth -= 1; i += 2
+        else:
+            if not depth:
+                out.append(txt[i])
+            i += 1
+    return "".join(out)
+
+
+def thorough_proof_audit(ctx):
+    """thorough tier: (1) no forbidden declaration or switch anywhere in the development (Variable/Hypothesis are allowed only
+    inside a Section), (2) the independent checker coqchk re-checks the property's compiled cone and lists its axioms."""
+    bad = []
+    for root, _, files in os.walk(COQ):
+        for f in files:
+            if not f.endswith(".v"):
+                continue
+            p = os.path.join(root, f)
+            txt = re.sub(r'"[^"]*"', '""', strip_comments(open(p).read()))
+            depth = 0
+            for ln, line in enumerate(txt.split("\n"), 1):
+                if re.match(r"\s*Section\b", line):
+                    depth += 1
+                if re.match(r"\s*End\b", line) and depth:
+                    depth -= 1
+                for m in re.finditer(FORBIDDEN, line):
+                    w = m.group(0).strip()
+                    if m.group(1) in ("Hypothesis", "Hypotheses", "Variable", "Variables") and depth > 0:
+                        continue
+                    bad.append("%s:%d: %s" % (os.path.relpath(p, COQ), ln, w))
+    flags = open(os.path.join(COQ, "_CoqProject")).read()
+    for w in ("-type-in-type", "-impredicative-set", "-native-compiler yes"):
+        if w in flags:
+            bad.append("_CoqProject: " + w)
+    if bad:
+        ctx.notes.append("audit: forbidden declarations/switches: " + "; ".join(bad[:10]))
+        return False, "forbidden declarations or switches in the development:\n" + "\n".join(bad)
+    t0 = time.time()
+    rc, out = sh(["coqchk", "-silent", "-o", "-Q", ".", "Verif", "Verif.Props.%s" % ctx.prop], cwd=COQ, timeout=3000)
+    summary = out[out.find("CONTEXT SUMMARY"):] if "CONTEXT SUMMARY" in out else out[-800:]
+    axioms = re.search(r"\* Axioms:(.*?)\n\s*\n", summary + "\n\n", re.S)
+    ctx.notes.append("coqchk -silent -o Verif.Props.%s: rc=%d in %.0f s; axioms: %s" % (ctx.prop, rc, time.time() - t0, " ".join((axioms.group(1) if axioms else "?").split())))
+    ctx.notes.append("audit: %d .v files scanned for Admitted/admit/Axiom/Parameter/Conjecture/unset checks/native_compute and Variable/Hypothesis outside sections: none" % sum(len([f for f in fs if f.endswith(".v")]) for _, _, fs in os.walk(COQ)))
+    if rc != 0 or "<none>" not in (axioms.group(1) if axioms else ""):
+        return False, "coqchk failed or reports axioms:\n" + summary
+    return True, summary
 
 
 # ----------------------------------------------------------------------------- evidence
@@ -381,7 +444,7 @@ def write_evidence(ctx, spec, ok):
         "coverage": {
             "obligations": len(names),
             "discharged": sum(1 for o in names if o.get("status") == "Qed"),
-            "checker_cmd": "make -C coq -j16 Props/%s.vo && coqc -Q coq Verif coq/Props/%s.v (Print Assumptions)" % (ctx.prop, ctx.prop),
+            "checker_cmd": ("make -C coq -j16 Props/%s.vo && coqc -Q coq Verif coq/Props/%s.v (Print Assumptions)" % (ctx.prop, ctx.prop)) + ("; thorough: keyword audit of all .v files + coqchk -silent -o -Q coq Verif Verif.Props.%s" % ctx.prop if ctx.tier == "thorough" else ""),
             "trusted_base": TRUSTED_COMMON + spec.get("trusted", []),
             "theorems": names,
             "evaluations": ctx.evaluations,
